@@ -207,6 +207,23 @@ pub fn near_misses(r: &mut Rng, sp: &SpecP, numbers: bool) -> Vec<String> {
     if sp.suffix.is_some() {
         v.push(format!("{fixed}{sep}{good}"));               // suffix missing
     }
+    // another family of the SAME length: same basename with a sibling discriminant (`node1` / `node2`),
+    // or a sibling basename — every byte offset of the fixed part fits, only its text differs
+    {
+        let sibling = |t: &str| -> Option<String> {
+            let mut cs: Vec<char> = t.chars().collect();
+            let last = cs.pop()?;
+            if !last.is_ascii() { return None; }
+            cs.push(if last == 'z' { 'y' } else if last == '9' { '8' } else if last.is_ascii_digit() { ((last as u8) + 1) as char } else { 'z' });
+            Some(cs.into_iter().collect())
+        };
+        if let Some(f2) = sibling(&fixed) {
+            if f2 != fixed { v.push(format!("{f2}{sep}{good}{sfx}")); v.push(format!("{f2}{sep}rCURRENT{sfx}")); }
+        }
+        if let (Some(_), Some(b2)) = (&sp.discr, sibling(&sp.basename)) {
+            if !sp.basename.is_empty() { v.push(format!("{b2}_{}{sep}{good}{sfx}", sp.discr.clone().unwrap())); }
+        }
+    }
     v.retain(|n| !n.is_empty() && !n.contains('/') && n != "." && n != "..");
     // the random stream keeps inside the guarded domain: names with extra dot-separated parts
     // between infix and suffix are the known finding C14-extra-dots (directed corpus case)
